@@ -266,7 +266,47 @@ func basicLatinSiblingForms(c *Ctx, rule string) {
 		nGeneral := 0
 		rangeRe := regexp.MustCompile(`^(.+?)(>=|>)` + regexp.QuoteMeta(param) + `\.ranges\[(\$[0-9]+|#[0-9]+)\]$`)
 		rangeHiRe := regexp.MustCompile(`^(.+?)(<=|<)` + regexp.QuoteMeta(param) + `\.ranges\[(\$[0-9]+|#[0-9]+)\+1\]$`)
-		for _, p := range c.vnorm(v).without("read", "restore", "failAt", "sliceFrom", "in", "out", "addErr", "addErrAt").normPaths(pf) {
+		rangeLoFlipRe := regexp.MustCompile(`^` + regexp.QuoteMeta(param) + `\.ranges\[(\$[0-9]+|#[0-9]+)\](<=|<)(.+)$`)
+		rangeHiFlipRe := regexp.MustCompile(`^` + regexp.QuoteMeta(param) + `\.ranges\[(\$[0-9]+|#[0-9]+)\+1\](>=|>)(.+)$`)
+		nc := c.vnorm(v).without("read", "restore", "failAt", "sliceFrom", "in", "out", "addErr", "addErrAt")
+		var effective []bpath
+		helperCall := regexp.MustCompile(`^` + regexp.QuoteMeta(param) + `\.([A-Za-z_]\w*)\((.+)\)$`)
+		for _, p := range nc.normPaths(pf) {
+			// the member scan in a method of the matcher node (`chr.contains(cur)`): its paths, with the receiver and the
+			// rune parameter spelled as at the call, continue the path of the evaluator
+			expanded := false
+			for i, e := range p {
+				if e.Kind != "call" {
+					continue
+				}
+				m := helperCall.FindStringSubmatch(e.Text)
+				if m == nil {
+					continue
+				}
+				hd := v.Func("charClassMatcher", m[1])
+				if hd == nil || hd.Body == nil || hd.Recv == nil || len(hd.Recv.List[0].Names) != 1 || hd.Type.Params.NumFields() != 1 || len(hd.Type.Params.List[0].Names) != 1 {
+					continue
+				}
+				recvRe := regexp.MustCompile(`\b` + regexp.QuoteMeta(hd.Recv.List[0].Names[0].Name) + `\b`)
+				argRe := regexp.MustCompile(`\b` + regexp.QuoteMeta(hd.Type.Params.List[0].Names[0].Name) + `\b`)
+				for _, hq := range nc.normPaths(hd) {
+					q := append(bpath{}, p[:i]...)
+					for _, he := range hq {
+						t := recvRe.ReplaceAllString(he.Text, "\x00R")
+						t = argRe.ReplaceAllLiteralString(t, m[2])
+						he.Text = strings.ReplaceAll(t, "\x00R", param)
+						q = append(q, he)
+					}
+					effective = append(effective, q)
+				}
+				expanded = true
+				break
+			}
+			if !expanded {
+				effective = append(effective, p)
+			}
+		}
+		for _, p := range effective {
 			iLoop := p.evIndex("loop", 0, func(s string) bool {
 				return strings.Contains(s, param+".chars") || strings.Contains(s, param+".ranges") || strings.Contains(s, param+".classes")
 			})
@@ -312,6 +352,14 @@ func basicLatinSiblingForms(c *Ctx, rule string) {
 				}
 				if m := rangeHiRe.FindStringSubmatch(f); m != nil {
 					cur.hiIncl = m[2] == "<="
+				}
+				// the same tests with the pair on the left: ranges[i] <= r, ranges[i+1] >= r
+				if m := rangeLoFlipRe.FindStringSubmatch(f); m != nil {
+					cur.ok = true
+					cur.loIncl = m[2] == "<="
+				}
+				if m := rangeHiFlipRe.FindStringSubmatch(f); m != nil {
+					cur.hiIncl = m[2] == ">="
 				}
 			}
 		}
